@@ -19,7 +19,7 @@ from valida.rules import Rule
 from valida.schema import Schema
 
 META = {
-    "rule": "every single rule (24 paths x 14 conditions x 3 casts), every ordered pair over a 14-rule pool (incl. cast-only rules), 113 schemas composed with add_schema (4 roots) and "
+    "rule": "every single rule (24 paths x 14 conditions x 4 casts incl. the declared-but-empty one), every ordered pair over a 14-rule pool (incl. cast-only rules), 113 schemas composed with add_schema (4 roots) and "
             "every ordered triple over a 6-rule pool; a case is one schema, its rules individually and as a whole "
             "serialised -> json text -> rebuilt, compared on every probe document; non-trivial = rebuilt and "
             "compared on all documents with at least one rule tested on some document",
@@ -46,7 +46,7 @@ CONDS = [
     ("or", ("xor", L("Value", "truthy"), L("Value", "equal_to", "true")), L("Value", "is_instance", dict, list)),
     T.NULL,
 ]
-CASTS = [(), (("str", "bool"),), (("str", "int"),)]
+CASTS = [(), (("str", "bool"),), (("str", "int"),), "empty"]
 DOCS = [
     {"a": "3", "b": 3, "m": {"x": "true"}, "lst": [1, "1", 1]}, {"a": {"b": "3"}, "b": [1, 2]}, {"a": ["3", "x", 3], 0: "FALSE"},
     ["3", "true", 3, {"a": "1"}], [["3"], {"b": 1}], {1.5: "3", True: "true", "a": 1, "b": 1}, {"a": 1, "b": 1},
@@ -137,9 +137,9 @@ def observe(schema, doc):
 
 def sig_of(st):
     if st[0] == "composed":
-        return "composed|" + "+".join(b for _, b in st[1][0][3] + st[2][0][3]) or "nocast"
+        return "composed|" + ("+".join(b for r in (st[1][0], st[2][0]) if r[3] != "empty" for _, b in r[3]) or "nocast")
     r = st[1][0]
-    return "%s|%s|%s" % (shape(r[1]), cshape(r[2]), "+".join(b for _, b in r[3]) or "nocast")
+    return "%s|%s|%s" % (shape(r[1]), cshape(r[2]), r[3] if r[3] == "empty" else ("+".join(b for _, b in r[3]) or "nocast"))
 
 
 def check_case(res, st, key):
